@@ -11,4 +11,5 @@ import GeoVerif.Ops.ReadParam
 import GeoVerif.Ops.InputFile
 import GeoVerif.Ops.Proc
 import GeoVerif.Ops.Paths
+import GeoVerif.Ops.Units
 /-! Everything the driver needs (import-free models + ops). -/
